@@ -1,7 +1,8 @@
-(* Proofs for C13 over the Dataset model: reads that are given no foreign
-   Graph object keep the simulation relation of C02 with the SAME
-   specification state (hence leave quads and graph names as they were) and
-   answer as a function of that state (hence answer the same twice). *)
+(* Proofs for C13 over the Dataset model.  Since the "fix:" commits for F19
+   (_graph copies only on write paths) and 6844ed54 (listing the graphs of a
+   Dataset registers nothing) NO modelled read changes the state at all: the
+   state after a read is the state before it (Leibniz), hence the same read
+   answers the same again. *)
 From Coq Require Import PeanoNat.
 From RV Require Import Dataset.Model Dataset.Proofs Purity.Model.
 Local Open Scope N_scope.
@@ -15,102 +16,78 @@ Lemma build_R : forall ops d sp,
 Proof.
   induction ops as [|o r IH]; intros d sp H Hw; [exact H|].
   cbn [forallb] in Hw. apply andb_true_iff in Hw. destruct Hw as [H1 Hr]. apply negb_true_iff in H1.
-  destruct (do_op_spec d sp o H (leaks_write sp o H1)) as (d1 & rs & E & R1 & _).
+  destruct (do_op_spec d sp o H) as (d1 & rs & E & R1 & _).
   unfold build in *. cbn [fold_left]. rewrite E. cbn [fst]. apply IH; auto.
 Qed.
 
-Lemma is_ds_build : forall ops d, is_ds (build d ops) = is_ds d.
+(* ---- a read is the identity on the state ---- *)
+Lemma cg_graph_read_state d oa : fst (cg_graph d oa false) = d.
+Proof. destruct oa as [[c|c|c ts]|]; reflexivity. Qed.
+
+Lemma cg_spoc_read_state d ca : fst (cg_spoc d ca false) = d.
 Proof.
-  induction ops as [|o r IH]; intros d; auto. unfold build in *. cbn [fold_left]. rewrite IH. apply is_ds_do_op.
+  destruct ca as [|oa]; cbn [cg_spoc fst]; auto. pose proof (cg_graph_read_state d oa) as H.
+  destruct (cg_graph d oa false) as [d1 c]. exact H.
 Qed.
 
-(* the answer of a read as a function of the specification state *)
-Definition sp_store (sp : dspec) : store := {| quads := sq sp; orphans := []; known := [] |}.
+Lemma cg_triples_state d p ca kw du : fst (cg_triples d p ca kw du) = d.
+Proof.
+  unfold cg_triples. pose proof (cg_spoc_read_state d ca) as H1.
+  destruct (cg_spoc d ca false) as [d1 c]. cbn [fst] in H1. subst d1.
+  match goal with |- context [cg_graph d ?a false] => pose proof (cg_graph_read_state d a) as H2; destruct (cg_graph d a false) as [d2 x] end.
+  exact H2.
+Qed.
 
-Definition out_rel (sp : dspec) (r : read) (o : pout) : Prop :=
-  match r with
-  | RdOpaque _ => o = PUnit
-  | RdTriples p ca kw du => o = PRes (RTriples (sp_triples sp p (eff_graph ca kw) du))
-  | RdContains p ca du => o = PRes (RBool (negb (is_nil (sp_triples sp p (eff_graph ca None) du))))
-  | RdQuads p ca => o = PRes (RQuads (quads_of (sp_store sp) p (eff_graph ca None)))
-  | RdGraphs => exists l, o = PNames l /\ forall x, (x = 0 \/ In x l) <-> In x (sk sp)
-  end.
+Lemma cg_quads_state d p ca : fst (cg_quads d p ca) = d.
+Proof.
+  unfold cg_quads. pose proof (cg_spoc_read_state d ca) as H1. destruct (cg_spoc d ca false) as [d1 c]. exact H1.
+Qed.
 
-Lemma quads_of_ext s s' p c : quads s = quads s' -> orphans s = orphans s' -> quads_of s p c = quads_of s' p c.
-Proof. intros H1 H2. unfold quads_of, st_triples, st_match. now rewrite H1, H2. Qed.
+Lemma cg_contains_state d p ca du : fst (cg_contains d p ca du) = d.
+Proof.
+  unfold cg_contains. pose proof (cg_spoc_read_state d ca) as H1.
+  destruct (cg_spoc d ca false) as [d1 c]. cbn [fst] in H1. subst d1.
+  pose proof (cg_triples_state d p CTriple (regraph c) du) as H2.
+  destruct (cg_triples d p CTriple (regraph c) du) as [d2 l]. exact H2.
+Qed.
+
+Theorem do_read_state d r : fst (do_read d r) = d.
+Proof.
+  destruct r as [id|p ca kw du|p ca|p ca du|]; cbn [do_read].
+  - reflexivity.
+  - pose proof (cg_triples_state d p ca kw du) as H. destruct (cg_triples d p ca kw du). exact H.
+  - pose proof (cg_quads_state d p ca) as H. destruct (cg_quads d p ca). exact H.
+  - pose proof (cg_contains_state d p ca du) as H. destruct (cg_contains d p ca du). exact H.
+  - pose proof (ds_graphs_state d) as H. destruct (ds_graphs d). exact H.
+Qed.
+
+Theorem do_read_again d r : do_read (fst (do_read d r)) r = do_read d r.
+Proof. now rewrite do_read_state. Qed.
 
 Lemma tseteqb_refl l : tseteqb l l = true.
 Proof. apply (seteqb_spec _ triple_eqb_spec). intros x; tauto. Qed.
 Lemma qseteqb_refl' l : qseteqb l l = true.
 Proof. apply qseteqb_spec. intros x; tauto. Qed.
+Lemma cseteqb_refl l : cseteqb l l = true.
+Proof. apply (seteqb_spec _ N.eqb_spec). intros x; tauto. Qed.
 
-Lemma out_rel_same sp r o1 o2 : out_rel sp r o1 -> out_rel sp r o2 -> pout_eqb o1 o2 = true.
-Proof.
-  destruct r as [id|p ca kw du|p ca|p ca du|]; cbn [out_rel].
-  - intros -> ->. reflexivity.
-  - intros -> ->. apply tseteqb_refl.
-  - intros -> ->. apply qseteqb_refl'.
-  - intros -> ->. apply Bool.eqb_reflx.
-  - intros (l1 & -> & H1) (l2 & -> & H2). cbn [pout_eqb]. apply (seteqb_spec _ N.eqb_spec).
-    intros x. now rewrite !N_sadd_In, H1, H2.
-Qed.
+Lemma res_eqb_refl r : res_eqb r r = true.
+Proof. destruct r; cbn [res_eqb]; auto using tseteqb_refl, qseteqb_refl', cseteqb_refl, Bool.eqb_reflx. Qed.
 
-Lemma do_read_R d sp r :
-  R d sp ->
-  exists d1 o, do_read d r = (d1, o) /\ R d1 sp /\ out_rel sp r o.
-Proof.
-  intros H. destruct r as [id|p ca kw du|p ca|p ca du|]; cbn [do_read out_rel] in *.
-  - eexists; eexists; split; [reflexivity|]. auto.
-  - destruct (cg_triples_spec d sp p ca kw du H) as (d1 & E & HR).
-    rewrite E. eexists; eexists; split; [reflexivity|]. auto.
-  - unfold cg_quads.
-    destruct (cg_spoc_read d sp ca H) as (d1 & E & HR). rewrite E.
-    eexists; eexists; split; [reflexivity|]. split; auto.
-    fold (quads_of (st d1) p (eff_graph ca None)). do 2 f_equal.
-    destruct HR as (Eq & Eo & _). apply quads_of_ext; auto.
-  - destruct (cg_contains_spec d sp p ca du H) as (d1 & E & HR).
-    rewrite E. eexists; eexists; split; [reflexivity|]. auto.
-  - pose proof H as (_ & _ & _ & _ & Hn & Hk & Hiff & _).
-    unfold ds_graphs. destruct (is_ds d) eqn:Eds.
-    + destruct (memb N.eqb 0 (known (st d))) eqn:Em.
-      * eexists; eexists; split; [reflexivity|]. split; auto. eexists; split; [reflexivity|].
-        intros x. rewrite Hiff. tauto.
-      * eexists; eexists; split; [reflexivity|]. split; [now apply R_know0|]. eexists; split; [reflexivity|].
-        intros x. rewrite Hiff, in_app_iff. simpl. intuition.
-    + eexists; eexists; split; [reflexivity|]. split; auto. eexists; split; [reflexivity|].
-      intros x. rewrite Hiff. tauto.
-Qed.
+Lemma pout_eqb_refl o : pout_eqb o o = true.
+Proof. destruct o; cbn [pout_eqb]; auto using res_eqb_refl, cseteqb_refl. Qed.
 
-Lemma psnap_same_R d d' sp : R d sp -> R d' sp -> psnap_same (snap_of d) (snap_of d') = true.
-Proof.
-  intros (Eq & Eo & _ & _ & _ & _ & Hiff & _) (Eq' & Eo' & _ & _ & _ & _ & Hiff' & _).
-  unfold psnap_same, snap_of. cbn [fst snd]. rewrite Eq, Eo, Eq', Eo'. cbn [map]. rewrite app_nil_r.
-  rewrite qseteqb_refl'. cbn [andb]. apply (seteqb_spec _ N.eqb_spec). intros x.
-  rewrite !N_sadd_In, <- Hiff, <- Hiff'. tauto.
-Qed.
+Lemma psnap_same_refl a : psnap_same a a = true.
+Proof. unfold psnap_same. now rewrite qseteqb_refl', cseteqb_refl. Qed.
 
-Lemma read_run_pure : forall rs d sp,
-  R d sp ->
+Lemma read_run_pure : forall rs d,
   pure_run (snap_of d) (read_run d rs) = true /\ length (read_run d rs) = length rs.
 Proof.
-  induction rs as [|r rest IH]; intros d sp H; [split; reflexivity|].
-  destruct (do_read_R d sp r H) as (d1 & o1 & E1 & R1 & O1).
-  destruct (do_read_R d1 sp r R1) as (d2 & o2 & E2 & R2 & O2).
-  cbn [read_run]. rewrite E1, E2. cbn [pure_run length e_snap e_same e_calls forallb].
-  rewrite (psnap_same_R d d1 sp H R1), (out_rel_same sp r o1 o2 O1 O2), (psnap_same_R d1 d2 sp R1 R2). cbn [andb].
-  destruct (IH d2 sp R2) as [P L]. split; [|now rewrite L].
-  (* the next read starts from d2, whose snapshot shows the same dataset as d1's *)
-  clear - P R1 R2. revert P. generalize (read_run d2 rest). intros l.
-  destruct l as [|[s f cs] l]; auto. cbn [pure_run e_snap e_same e_calls]. intros P.
-  apply andb_true_iff in P. destruct P as [P1 P3]. apply andb_true_iff in P1. destruct P1 as [P1 P4].
-  apply andb_true_iff in P1. destruct P1 as [P1 P2].
-  rewrite P2, P3, P4, !andb_true_r.
-  (* psnap_same is transitive *)
-  pose proof (psnap_same_R d1 d2 sp R1 R2) as T.
-  unfold psnap_same in *. apply andb_true_iff in T, P1. destruct T as [T1 T2], P1 as [Q1 Q2].
-  apply andb_true_iff. split.
-  - apply qseteqb_spec. apply qseteqb_spec in T1, Q1. intros x. rewrite (T1 x). apply Q1.
-  - apply (seteqb_spec _ N.eqb_spec). apply (seteqb_spec _ N.eqb_spec) in T2, Q2. intros x. rewrite (T2 x). apply Q2.
+  induction rs as [|r rest IH]; intros d; [split; reflexivity|].
+  cbn [read_run]. pose proof (do_read_state d r) as E1.
+  destruct (do_read d r) as [d1 o1] eqn:E. cbn [fst] in E1. subst d1. rewrite E.
+  cbn [pure_run length e_snap e_same e_calls forallb]. rewrite psnap_same_refl, pout_eqb_refl. cbn [andb].
+  destruct (IH d) as [P L]. split; [exact P|now rewrite L].
 Qed.
 
 Theorem spec_ok_model c : pwf c -> spec_ok c (model_obs c) = true.
@@ -119,7 +96,7 @@ Proof.
   pose proof (build_R (p_build c) _ _ (R_init (p_ds c)) Hwf) as HR.
   set (d := build (ds_init (p_ds c)) (p_build c)) in *.
   set (sp := fold_left sp_step (p_build c) sp_init) in *.
-  destruct (read_run_pure (p_reads c) d sp HR) as [P L].
+  destruct (read_run_pure (p_reads c) d) as [P L].
   cbn [fst snd]. rewrite P, L, Nat.eqb_refl, !andb_true_r.
   pose proof HR as (Eq & Eo & _ & Hn & _ & _ & Hiff & _).
   unfold snap_of. cbn [fst snd]. rewrite Eq, Eo. cbn [map]. rewrite app_nil_r.
@@ -128,57 +105,32 @@ Proof.
   - apply (seteqb_spec _ N.eqb_spec). intros x. rewrite N_sadd_In, Hiff. tauto.
 Qed.
 
-(* ---- purity and repeatability, read by read, on every reachable state ---- *)
-Definition names (d : ds) (g : cid) : Prop := g = 0 \/ In g (known (st d)).
-
-Theorem read_pure d sp r :
-  R d sp ->
-  quads (st (fst (do_read d r))) = quads (st d)
-  /\ orphans (st (fst (do_read d r))) = orphans (st d)
-  /\ (forall g, names (fst (do_read d r)) g <-> names d g).
-Proof.
-  intros H. destruct (do_read_R d sp r H) as (d1 & o & E & R1 & _). rewrite E. cbn [fst].
-  destruct H as (Eq & Eo & _ & _ & _ & _ & Hiff & _), R1 as (Eq' & Eo' & _ & _ & _ & _ & Hiff' & _).
-  split; [congruence|]. split; [congruence|]. intros g. unfold names. now rewrite <- Hiff, <- Hiff'.
-Qed.
-
-Theorem read_repeatable d sp r :
-  R d sp ->
-  pout_eqb (snd (do_read d r)) (snd (do_read (fst (do_read d r)) r)) = true.
-Proof.
-  intros H. destruct (do_read_R d sp r H) as (d1 & o1 & E1 & R1 & O1). rewrite E1. cbn [fst snd].
-  destruct (do_read_R d1 sp r R1) as (d2 & o2 & E2 & R2 & O2). rewrite E2. cbn [snd].
-  exact (out_rel_same sp r o1 o2 O1 O2).
-Qed.
-
 (* every state a building history reaches is related to the specification state *)
 Theorem reachable_R b ops :
   forallb (fun o => negb (is_read o)) ops = true ->
   R (build (ds_init b) ops) (fold_left sp_step ops sp_init).
 Proof. intros H. apply build_R; auto using R_init. Qed.
 
-(* ---- what is left of the writes on read paths ---- *)
+(* ---- historical witnesses ---- *)
 (* with the _graph of before the "fix:" commit for F19, a membership test handed
-   a Graph of another store copied it in; with the repaired one it does not *)
+   a Graph of another store copied it in *)
 Lemma hist_foreign_read_refuted :
-  exists d c ts,
-    quads (st (fst (cg_graph_hist d (Some (GForeign c ts))))) <> quads (st d)
-    /\ quads (st (fst (do_read d (RdContains (pat_of (12, 4, 12)) (CQuad (Some (GForeign c ts))) false)))) = quads (st d).
-Proof. exists (ds_init true), 1, [(12, 4, 12)]. split; [vm_compute; discriminate|reflexivity]. Qed.
+  exists d c ts, quads (st (fst (cg_graph_hist d (Some (GForeign c ts))))) <> quads (st d).
+Proof. exists (ds_init true), 1, [(12, 4, 12)]. vm_compute. discriminate. Qed.
 
-(* at the level of the store's own registry, Dataset.graphs() is a write: the
-   first call registers the default graph (invisible through graphs() itself) *)
-Lemma graphs_registers_default_refuted :
-  exists d, known (st (fst (do_read d RdGraphs))) <> known (st d).
-Proof. exists (ds_init true). vm_compute. discriminate. Qed.
+(* before 6844ed54 Dataset.graphs() registered the default graph with the store on
+   its first pass (which reordered the store's graph list: the first and the
+   second TriX serialisation of a fresh dataset differed) *)
+Lemma hist_graphs_registers_default_refuted :
+  exists d, known (st (fst (ds_graphs_hist d))) <> known (st d).
+Proof. exact ds_graphs_hist_refuted. Qed.
 
 (* reading of the checker *)
 Lemma psnap_same_reading a b :
   psnap_same a b = true <->
-  (forall q, In q (fst a) <-> In q (fst b)) /\ (forall g, g = 0 \/ In g (snd a) <-> g = 0 \/ In g (snd b)).
+  (forall q, In q (fst a) <-> In q (fst b)) /\ (forall g, In g (snd a) <-> In g (snd b)).
 Proof.
-  unfold psnap_same. rewrite andb_true_iff, qseteqb_spec, (seteqb_spec _ N.eqb_spec). unfold qseteq, seteq.
-  split; intros [H1 H2]; split; auto; intros g; specialize (H2 g); now rewrite !N_sadd_In in *.
+  unfold psnap_same. rewrite andb_true_iff, qseteqb_spec, (seteqb_spec _ N.eqb_spec). unfold qseteq, seteq. tauto.
 Qed.
 
 Lemma pure_run_reading prev e l :
